@@ -315,6 +315,21 @@ class SimSocket(Conn):
         view[: len(data)] = data
         return len(data)
 
+    def setsockopt(self, level, opt, value) -> None:
+        # (recorded; SO_RCVLOWAT on a blocking socket only delays a recv until min(lowat, requested) bytes are there, which the
+        # one-arrival-per-call model never contradicts)
+        self._sockopts = getattr(self, "_sockopts", {})
+        self._sockopts[(level, opt)] = value
+
+    def getsockopt(self, level, opt, *a):
+        return getattr(self, "_sockopts", {}).get((level, opt), 0)
+
+    def getpeername(self):
+        return (self.host, self.port)
+
+    def getsockname(self):
+        return ("192.0.2.10", 40000 + self.cid)
+
     def fileno(self) -> int:
         if self.closed_by_client:
             return -1
